@@ -198,7 +198,7 @@ def run_shard(ctx):
         env.reset()
         fails, info = classify(case)
         fs = modelir.features(case["prog"])
-        nt = (info.get("n_constrained", 0) > 0 or info.get("args_changed", False)) and (bool(fs & {"vmap", "scan", "cond", "vdist", "call"}) or "dep" in fs)
+        nt = (info.get("n_constrained", 0) > 0 or info.get("args_changed", False)) and (bool(fs & {"vmap", "scan", "cond", "vdist", "call", "nest"}) or "dep" in fs)
         cls = [f"C03.{info.get('flip', 'skipped')}", f"C03.args_{'changed' if info.get('args_changed') else 'same'}",
                f"C03.constraints_{'some' if info.get('n_constrained') else 'none'}"] + [f"C03.prog_with_{f}" for f in sorted(fs)]
         if not info.get("finite", True):
@@ -215,6 +215,8 @@ def run_shard(ctx):
     forces = ["cond", "scan", "vmap", "indicator", "vdist", "call", None, "cond"]
     drive(ctx, cases(False, forces[ctx.shard % len(forces)]), n - n // 3, one, "cont")
     drive(ctx, cases(True, forces[(ctx.shard + 1) % len(forces)]), n // 3, one, "disc")
+    nk = modelir.NEST_KINDS  # combinators applied directly to combinators
+    drive(ctx, cases(ctx.shard % 3 == 2, nk[ctx.shard % len(nk)]), P.get("n_nest", max(2, n // 3)), one, "nest")
 
 
 def replay(case):
